@@ -37,7 +37,9 @@ func (tp *ThreadPool) initThreadPool(threadCount, queueSize int, opts ...Option)
 }
 
 func threadWorker(thread *Thread, queue chan *Promise) {
+	vhook("take.try", thread)
 	for task := range queue {
+		vhook("taken", thread, task)
 		switch body := task.Body.(type) {
 		case *Generator:
 			executeBytecodePromise(thread, queue, task)
@@ -48,6 +50,7 @@ func threadWorker(thread *Thread, queue chan *Promise) {
 		}
 
 		thread.state = idleState
+		vhook("take.try", thread)
 	}
 }
 
@@ -58,9 +61,11 @@ func executeBytecodePromise(thread *Thread, queue chan *Promise, task *Promise) 
 	case awaitState:
 		awaitedPromise := (*Promise)(thread.peek().Pointer())
 		awaitedPromise.RegisterContinuationUnsafe(task)
+		vhook("await.registered", thread, awaitedPromise, task)
 
 		// promise has been locked in the VM
 		awaitedPromise.m.Unlock()
+		vhook("await.unlocked", thread, awaitedPromise, task)
 	case errorState:
 		err := thread.popGet()
 		stackTrace := thread.GetStackTrace()
@@ -122,7 +127,9 @@ func (t *ThreadPool) ThreadCount() int {
 }
 
 func (t *ThreadPool) AddTask(promise *Promise) {
+	vhook("addtask.try", promise)
 	t.TaskQueue <- promise
+	vhook("addtask.ok", promise)
 }
 
 func (t *ThreadPool) Close() {
